@@ -34,6 +34,7 @@ type Replay struct {
 	Inputs   map[string]string `json:"inputs"`
 	Schedule []int             `json:"schedule"`
 	Params   map[string]int    `json:"params"`
+	Sched    bool              `json:"sched"`
 }
 
 // Outcome is what a native run of a harness produced.
